@@ -1,6 +1,6 @@
 """C01 -- a job never starts before every one of its requirements has finished"""
 from env.scenario import Profile
-from props.common import scenario_harness
+from props.common import scenario_harness, edit_before_run
 from props import oracles as O
 
 TITLE = "a job never starts before all its requirements finished"
@@ -23,6 +23,10 @@ def harnesses(tier):
             Profile(templates=("F3",), crit_job=False, forever="free", timeout="free",
                     perm="id", top="sched", verbose=True),
             [O.c01_requirements]))
+        hs.append(scenario_harness(
+            "inspected-and-edited-before-run",
+            Profile(templates=("F3", "F4"), crit_job=False, perm="id", top="pure"),
+            [O.c01_requirements, O.c12_unwindowed, O.c02_exactly_once], pre=edit_before_run))
         hs.append(scenario_harness(
             "nested-outcomes",
             Profile(templates=("N12", "D3", "E3", "E2"), raises="free", crit_job="free", crit_sched="free",
